@@ -643,4 +643,16 @@ theorem gen_parse_date_value_naive {D : Type} (f : List Char → D) (value : Lis
       .ok ((splitOnChar ',' value).map (fun d => (f d, (resolveTzid t parms).map (StrPy.Zone.looked lk)))) :=
   gen_parseDateValue_naive f value parms t k lk hk hp
 
+/-- **the line dispatch of `_parse_rfc` as translated from source** (`Gen.rrsStepLine`: the body of `for line in lines:` — empty lines
+    skipped, `name[;parms]:value` split, RRULE / EXRULE without parameters, RDATE with `VALUE=DATE-TIME` only, EXDATE / DTSTART through the
+    parameter check of `_parse_date_value`, exactly one DTSTART value, anything else ValueError) **equals the model's `stepLine`**, hence
+    the whole loop: `multi_line_builds_set` / `multi_line_single_rule` / `options_reach_every_path` speak of the dispatch as written -/
+theorem gen_dispatch_eq_model (acc : Acc) (line : List Char) : Gen.rrsStepLine po acc line = stepLine po acc line :=
+  gen_stepLine_eq po acc line
+
+theorem gen_dispatch_loop_eq_model (lines : List (List Char)) (acc : Acc) :
+    lines.foldlM (Gen.rrsStepLine po) acc = lines.foldlM (stepLine po) acc := by
+  have : Gen.rrsStepLine po = stepLine po := by funext a l; exact gen_stepLine_eq po a l
+  rw [this]
+
 end C13
